@@ -139,10 +139,22 @@ theorem Param.fuel_linear {p : Param} (hwf : WFParam p) : p.fuel ≤ 14 * p.ntok
     | cons t r => simp
   simp only [Param.fuel, Param.ntoks]; omega
 
-theorem paramsRestFuel_linear : ∀ (l : List Param), (∀ p ∈ l, WFParam p) → paramsRestFuel l ≤ 14 * paramsRestNtoks l + 1
+theorem PItem.fuel_linear {ty : String → Bool} {p : PItem} (hwf : WFPItem ty p) : p.fuel ≤ 14 * p.ntoks + 1 := by
+  cases p with
+  | named p => exact Param.fuel_linear (show WFParam p from hwf)
+  | unnamed u =>
+    have hw : WFParamU ty u := hwf
+    have h3 : 1 ≤ u.specs.length := by
+      cases hsp : u.specs with
+      | nil => exact absurd hsp (sawAfter_ne_nil hw.sawType)
+      | cons t r => simp
+    simp only [PItem.fuel, PItem.ntoks, ParamU.fuel, ParamU.ntoks]; omega
+
+theorem paramsRestFuel_linear {ty : String → Bool} : ∀ (l : List PItem), (∀ p ∈ l, WFPItem ty p) →
+    paramsRestFuel l ≤ 14 * paramsRestNtoks l + 1
   | [], _ => by simp [paramsRestFuel, paramsRestNtoks]
   | p :: r, h => by
-    have h1 := Param.fuel_linear (h p List.mem_cons_self)
+    have h1 := PItem.fuel_linear (h p List.mem_cons_self)
     have h2 := paramsRestFuel_linear r (fun i hi => h i (List.mem_cons_of_mem _ hi))
     simp only [paramsRestFuel, paramsRestNtoks]; omega
 
@@ -163,14 +175,14 @@ theorem Ext.fuel_linear {ty : String → Bool} : ∀ (e : Ext), WFExt ty e → e
     cases hpv : f.fd.params with
     | named l =>
       rw [hpv] at hp
-      have hp' : WFPL l := hp
-      have h1 := Param.fuel_linear hp'.first
+      have hp' : WFPL ty l := hp
+      have h1 := PItem.fuel_linear hp'.first
       have h2 := paramsRestFuel_linear l.more hp'.more
       simp only [Ext.fuel, Ext.ntoks, FDefP.fuel, FDefP.ntoks, FD.fuel, FD.ntoks, hpv, PLV.fuel, PLV.ntoks, PL.fuel, PL.ntoks]; omega
     | void =>
       simp only [Ext.fuel, Ext.ntoks, FDefP.fuel, FDefP.ntoks, FD.fuel, FD.ntoks, hpv, PLV.fuel, PLV.ntoks]; omega
   | .proto p, hw => by
-    have hw' : WFProto p := hw
+    have hw' : WFProto ty p := hw
     have h3 := restFuel_linear p.more hw'.more
     have hne : 1 ≤ p.specs.length := by
       have := DeclParse.sawAfter_ne_nil hw'.sawType
@@ -181,8 +193,8 @@ theorem Ext.fuel_linear {ty : String → Bool} : ∀ (e : Ext), WFExt ty e → e
     cases hpv : p.fd.params with
     | named l =>
       rw [hpv] at hp
-      have hp' : WFPL l := hp
-      have h1 := Param.fuel_linear hp'.first
+      have hp' : WFPL ty l := hp
+      have h1 := PItem.fuel_linear hp'.first
       have h2 := paramsRestFuel_linear l.more hp'.more
       simp only [Ext.fuel, Ext.ntoks, Proto.fuel, Proto.ntoks, FD.fuel, FD.ntoks, hpv, PLV.fuel, PLV.ntoks, PL.fuel, PL.ntoks]; omega
     | void =>
@@ -205,25 +217,25 @@ theorem extsFlat_length : ∀ (l : List Ext), (extsFlat l).length = extsNtoks l
       | fdef f =>
         simp [Ext.flat, Ext.ntoks, FDef.flat, FDef.ntoks, bodyFlat, DeclSkel.flat_length, SL.flat_length]; omega
       | fdefp f =>
-        have hp : ∀ l : List Param, (paramsRestFlat l).length = paramsRestNtoks l := by
+        have hp : ∀ l : List PItem, (paramsRestFlat l).length = paramsRestNtoks l := by
           intro l
           induction l with
           | nil => rfl
-          | cons p r ih => simp [paramsRestFlat, paramsRestNtoks, Param.flat_length, ih]; omega
+          | cons p r ih => simp [paramsRestFlat, paramsRestNtoks, PItem.flat_length, ih]; omega
         cases hpv : f.fd.params with
         | named l =>
           simp [Ext.flat, Ext.ntoks, FDefP.flat, FDefP.ntoks, FD.flat, FD.ntoks, hpv, PLV.flat, PLV.ntoks, PL.flat, PL.ntoks, bodyFlat,
-            Param.flat_length, SL.flat_length, hp]
+            PItem.flat_length, SL.flat_length, hp]
           omega
         | void =>
           simp [Ext.flat, Ext.ntoks, FDefP.flat, FDefP.ntoks, FD.flat, FD.ntoks, hpv, PLV.flat, PLV.ntoks, bodyFlat, SL.flat_length]
           omega
       | proto p =>
-        have hp : ∀ l : List Param, (paramsRestFlat l).length = paramsRestNtoks l := by
+        have hp : ∀ l : List PItem, (paramsRestFlat l).length = paramsRestNtoks l := by
           intro l
           induction l with
           | nil => rfl
-          | cons p r ih => simp [paramsRestFlat, paramsRestNtoks, Param.flat_length, ih]; omega
+          | cons p r ih => simp [paramsRestFlat, paramsRestNtoks, PItem.flat_length, ih]; omega
         have h2 : ∀ l : List IDc, (restFlat l).length = restNtoks l := by
           intro l
           induction l with
@@ -232,7 +244,7 @@ theorem extsFlat_length : ∀ (l : List Ext), (extsFlat l).length = extsNtoks l
         cases hpv : p.fd.params with
         | named l =>
           simp [Ext.flat, Ext.ntoks, Proto.flat, Proto.ntoks, FD.flat, FD.ntoks, hpv, PLV.flat, PLV.ntoks, PL.flat, PL.ntoks,
-            Param.flat_length, hp, h2]
+            PItem.flat_length, hp, h2]
           omega
         | void =>
           simp [Ext.flat, Ext.ntoks, Proto.flat, Proto.ntoks, FD.flat, FD.ntoks, hpv, PLV.flat, PLV.ntoks, h2]
